@@ -17,7 +17,10 @@ def run(ctx):
                 "concurrent Put/Delete/Delete2 on shared keys (same-epoch and cross-epoch deletes), iterators with refresh rates {0,1,3} and "
                 "visitors dereferencing every item, snapshot churn, GC and free workers; plus churn runs: Visitor (2-32 shards), refreshing iterators "
                 "and StoreToDisk loop over a pinned snapshot while two writers insert and delete neighbouring keys within the current epoch "
-                "(every pointer a reader keeps across its tokens is exposed to reclamation); allocator events and faults are judged by TLC (MemAPI.tla)")
+                (every pointer a reader keeps across its tokens is exposed to reclamation); scenario kinds rotate over: instance built by Put / "
+                "restored by LoadFromDisk with its writers created before the restore, pinned first snapshot / rolling latest snapshot (collection "
+                "and free workers busy), plain / delta-interleaved backups whose callbacks check the item handed to them against the allocator's "
+                "registry; allocator events and faults are judged by TLC (MemAPI.tla)")
     nwriters.model_check(ctx, T)
     nwriters.conformance(ctx, T, 41)
     plan = [("guard", 150, True, False), ("registry", 300, False, False), ("guard-large", 60, True, True)]
@@ -45,7 +48,7 @@ def run(ctx):
     # readers that keep pointers across their accessor tokens (visitor pivots, iterator cursors, backup shards)
     # against same-epoch insert/delete churn on neighbouring keys
     if not ctx.violations or T:
-        for i, (name, n, secs, guard) in enumerate([("guard", 4, 2, True), ("registry", 2, 2, False)] if not T else [("guard", 40, 3, True), ("registry", 20, 3, False)]):
+        for i, (name, n, secs, guard) in enumerate([("guard", 4, 2, True), ("registry", 8, 2, False)] if not T else [("guard", 40, 3, True), ("registry", 64, 3, False)]):
             tr, ns, crashes = writers.run_wr(ctx, "c04_churn%d" % i, vlib.seed() * 10 + 7 + i, n, guard=guard, mm=1, nomem=True,
                                              extra=["-churn", secs, "-backup", os.path.join(ctx.wd, "churnbk")])
             ctx.extra["child_crashes_churn_%s" % name] = crashes
